@@ -58,3 +58,74 @@ func Harness_C05_dispatch() {
 type c05RW struct{ verifConn }
 
 func (c *c05RW) GetConnectionID() string { return "h1" }
+
+// ---- structure-aware mutations of valid command bodies ---------------------------------------
+
+// c05Msg is one JSON-carrying command the session layer parses itself: its command type, whether
+// it travels as a request or a response packet, and the fields of a valid body.
+type c05Msg struct {
+	ct     packet.CommandType
+	resp   bool
+	fields [][2]string // name, valid JSON value
+}
+
+var c05Msgs = []c05Msg{
+	{packet.HTTPProxyResponse, true, [][2]string{{"request_id", `"c"`}, {"status_code", "200"}, {"headers", `{"Content-Type":"text/plain"}`}, {"body", `"aGVsbG8="`}, {"error", `""`}}},
+	{packet.SOCKS5TunnelRequestCmd, false, [][2]string{{"tunnel_id", `"t"`}, {"mapping_id", `"m"`}, {"target_client_id", "1001"}, {"target_host", `"h"`}, {"target_port", "80"}, {"protocol", `"tcp"`}}},
+	{packet.DNSResolve, false, [][2]string{{"domain", `"a.b"`}, {"qtype", "1"}, {"target_client_id", "1001"}}},
+	{packet.DNSResolve, true, [][2]string{{"success", "true"}, {"ips", `["1.2.3.4"]`}, {"ttl", "60"}, {"error", `""`}}},
+	{packet.DNSQuery, false, [][2]string{{"query_id", `"q"`}, {"target_client_id", "1001"}, {"dns_server", `"1.1.1.1:53"`}, {"raw_query", `"AAE="`}}},
+	{packet.DNSQuery, true, [][2]string{{"query_id", `"q"`}, {"success", "true"}, {"raw_answer", `"AAE="`}, {"error", `""`}}},
+	{packet.TunnelTrafficReport, false, [][2]string{{"mapping_id", `"m"`}, {"bytes_sent", "1"}, {"bytes_received", "2"}, {"connections", "1"}, {"timestamp", "5"}}},
+}
+
+// A valid body of each of these commands with every field independently kept, dropped, set to
+// null or given a value of another JSON kind, on an unauthenticated or an authenticated
+// connection: the dispatcher returns (an error at most), it never panics.
+func Harness_C05_command_bodies() {
+	verif_ClockSet(int64(1) << 60)
+	ctx, stop := context.WithCancel(context.Background())
+	sm := NewSessionManager(nil, ctx)
+	defer func() { sm.Close(); stop() }()
+	sm.SetAuthHandler(&vsAuth{ok: map[int64]bool{1001: true}})
+	sm.SetTunnelHandler(c05Tunnels{})
+	rw := &c05RW{verifConn: verifConn{In: &verifReader{}, Out: &verifSink{}}}
+	_, err := sm.CreateConnection(rw, rw)
+	verif_Assert("C05.body.setup", err == nil)
+	if verif_Bool() {
+		verif_Assert("C05.body.setup_auth", vsHandshake(sm, "h1", &packet.HandshakeRequest{ClientID: 1001, ConnectionType: "control"}) == nil)
+		verif_Quiesce()
+	}
+	m := c05Msgs[verif_Choose(len(c05Msgs))]
+	body := "{"
+	first := true
+	for _, f := range m.fields {
+		val := f[1]
+		switch verif_Choose(4) {
+		case 1:
+			continue // field absent
+		case 2:
+			val = "null"
+		case 3: // another JSON kind than the valid one
+			if val[0] == '"' {
+				val = "7"
+			} else {
+				val = `"x"`
+			}
+		}
+		if !first {
+			body += ","
+		}
+		first = false
+		body += `"` + f[0] + `":` + val
+	}
+	body += "}"
+	pt := packet.JsonCommand
+	if m.resp {
+		pt = packet.CommandResp
+	}
+	sm.HandlePacket(&types.StreamPacket{ConnectionID: "h1", Timestamp: time.Now(), Packet: &packet.TransferPacket{PacketType: pt,
+		CommandPacket: &packet.CommandPacket{CommandType: m.ct, CommandId: "c", CommandBody: body}}})
+	verif_Quiesce()
+	verif_Cover("C05.body.done")
+}
